@@ -206,9 +206,17 @@ def prove_unit(eng: Engine, unit: Unit, prop: str):
             eng.setvar(st, fid, a.kwarg.arg, make_value(eng, st, a.kwarg.arg, unit.params[a.kwarg.arg], genv))
     for g, kind in unit.ghosts.items():
         if isinstance(kind, tuple):
-            st.assume(V.cmp("==", genv[g], eval_text(eng, st, fid, kind[1])))
+            gv = V.cmp("==", genv[g], eval_text(eng, st, fid, kind[1]))
+            st.assume(gv)
+            st.name_hyp(f"pre:ghost.{g}", gv)
     for label, text in unit.requires:
-        st.assume(eng.truthy(st, eval_text(eng, st, fid, text)))
+        rv = eng.truthy(st, eval_text(eng, st, fid, text))
+        st.assume(rv)
+        st.name_hyp(f"pre:{label}", rv)
+    eng.lemma_from = dict(unit.opts.get("lemma_from") or {})
+    for _ls in (eng.loop_specs or {}).values():
+        if isinstance(_ls, dict) and _ls.get("lemma_from"):
+            eng.lemma_from.update(_ls["lemma_from"])
     eng.cover(st, "pre")
     entry = st.copy()
     eng.entry_state = entry
